@@ -79,10 +79,10 @@ IDATTRS = [("id", "id"), ("uid", "uid"), (XMI_ID, "xmi:id")]
 VISUAL = (".aird", ".airdfragment")
 SEMANTIC = (".capella", ".capellafragment", ".melodyfragment", ".melodymodeller")
 
-COMPS = ["a", "a b", "é", "100%", "x#y", "a.e", "platform:", "...", "ab", "b c"]  # incl. string prefixes of each other
+COMPS = ["a", "a b", "é", "100%", "x#y", "a.e", "platform:", "...", "ab", "b c", "c+d", "p&q=r;s", "u,v@w!", "(x)'*$"]  # incl. string prefixes of each other and RFC 3986 sub-delims
 FILES = ["m.capella", "M N.capella", "ü%.capellafragment", "v.aird", "#1.capellafragment"]
-DIRS = ["fragments", "a b", "é", "100%", "x#y", "d.e", "Ünï cödé", "a", "fragments 2"]  # incl. string prefixes of each other
-FNAMES = ["LA", "Logical Ärch", "100% #1", "f.g", "x y z"]
+DIRS = ["fragments", "a b", "é", "100%", "x#y", "d.e", "Ünï cödé", "a", "fragments 2", "c+d", "p&q=r;s", "u,v@w!", "(x)'*$"]  # incl. string prefixes of each other and RFC 3986 sub-delims
+FNAMES = ["LA", "Logical Ärch", "100% #1", "f.g", "x y z", "L+A", "a&b=c;d,e", "f@g!(h)'*$"]
 
 DATA = "tests/data"
 CORPUS = [
@@ -121,9 +121,10 @@ def errname(e: BaseException) -> str:
 
 
 def guarded(fn):
+    """never let an exception of the implementation escape: it becomes part of the observation"""
     try:
         return {"r": fn()}
-    except (KeyError, ValueError, TypeError) as e:
+    except Exception as e:  # noqa: BLE001
         return {"e": errname(e)}
 
 
@@ -162,7 +163,7 @@ def gen_layout_spec(rng, model: str, resources: dict, ncuts: int | None = None, 
         if cand not in used:
             cuts[1][1] = cand
     spec = {"model": model, "resources": resources, "cuts": cuts, "main_rel": main_rel,
-            "airdfragments": rng.random() < 0.4, "raw_nonascii": rng.random() < 0.25}
+            "airdfragments": rng.random() < 0.4, "raw_nonascii": rng.random() < 0.25, "raw_subdelims": rng.random() < 0.4}
     if resources and (same_names if same_names is not None else rng.random() < 0.5):
         spec["resource_rename"] = same_name_rename(model, resources, main_rel)
     return spec
@@ -186,7 +187,8 @@ def build_layout(spec: dict, dst: pathlib.Path) -> fragmenter.Layout:
     res = {k: data_dir() / v for k, v in spec.get("resources", {}).items()}
     return fragmenter.fragment(src, dst, [tuple(c) for c in spec["cuts"]], main_rel=spec.get("main_rel"),
                                airdfragments=spec.get("airdfragments", False),
-                               raw_nonascii=spec.get("raw_nonascii", False), resources=res,
+                               raw_nonascii=spec.get("raw_nonascii", False), raw_subdelims=spec.get("raw_subdelims", False),
+                               resources=res,
                                resource_rename=spec.get("resource_rename"))
 
 
@@ -342,10 +344,15 @@ def run(ctx: Ctx) -> Outcome:
         if k in seen:
             continue
         seen.add(k)
-        rel = helpers.relpath_pure(P(*to), P(*frm))
-        q = urllib.parse.quote(str(rel))
+        try:
+            rel = helpers.relpath_pure(P(*to), P(*frm))
+            q = urllib.parse.quote(str(rel))
+            back = helpers.normalize_pure_path(core._unquote_ref(q), base=P(*frm).parent)
+        except Exception as e:  # noqa: BLE001
+            out.find(f"relpath_pure|raises:{type(e).__name__}", f"path {to} from {frm}: {type(e).__name__}: {e}"[:200],
+                     {"kind": "path", "to": to, "from": frm})
+            continue
         add("relpath+quote", [to, frm], {"op": "links.quote_path", "to": to, "from": frm}, q)
-        back = helpers.normalize_pure_path(core._unquote_ref(q), base=P(*frm).parent)
         add("loadref", [frm, q], {"op": "links.loadref", "path": frm, "ref": q}, list(back.parts))
         out.case(("path", k), {"to": to, "from": frm, "link_path": q} if len(out.samples) < 2 and len(to) > 3 else None,
                  nontrivial=to[:-1] != frm[:-1] or any(not c.isalnum() for c in to[-1].split(".")[0]))
@@ -377,11 +384,21 @@ def run(ctx: Ctx) -> Outcome:
     # _unquote_ref
     refs = ["platform:/resource/Lib%201/x.capella", "a%20b/c.capella", "%C3%A9.capella", "é.capella", "100%25.capella",
             "x%23y#frag", "../a/../b", "platform:/resource/a/platform:/resource/b", "%zz", "%4", "%", "a%2Fb", "plat", "Ünï%20x"]
-    refs += ["".join(ctx.rng.choice(["a", "/", "%20", "%C3%A9", "é", "%25", ".", "..", " ", "platform:/resource/"]) for _ in range(ctx.rng.randint(1, 6)))
+    refs += ["a+b/c+.capella", "a%2Bb", "+", "p&q=r;s", "u,v@w!", "(x)'*$", "%26%3D%3B", "a+b%20c+d"]
+    refs += ["".join(ctx.rng.choice(["a", "/", "%20", "%C3%A9", "é", "%25", ".", "..", " ", "platform:/resource/", "+", "&", "=", ";", ",", "@", "!",
+                                     "'", "(", ")", "*", "$", "%2B", "~"]) for _ in range(ctx.rng.randint(1, 6)))
              for _ in range(ctx.pick(200, 2000))]
     for r in refs:
-        add("unquote_ref", r, {"op": "links.unquote_ref", "s": r}, core._unquote_ref(r))
-        out.case(("unq", r), nontrivial="%" in r or "platform" in r)
+        try:
+            u = core._unquote_ref(r)
+        except Exception as e:  # noqa: BLE001
+            out.find(f"_unquote_ref|raises:{type(e).__name__}", f"_unquote_ref({r!r}): {e}"[:200], {"kind": "unquote_ref", "ref": r})
+            continue
+        add("unquote_ref", r, {"op": "links.unquote_ref", "s": r}, u)
+        # monitor: text without an escape (and without the platform marker) is not changed by unquoting
+        if "%" not in r and not r.startswith("platform:/resource/") and u != r:
+            out.find("_unquote_ref|changes-unescaped-text", f"_unquote_ref({r!r}) = {u!r}", {"kind": "unquote_ref", "ref": r})
+        out.case(("unq", r), nontrivial="%" in r or "platform" in r or any(c in r for c in "+&=;,@!'()*$"))
 
     # ---------------- (b) the link grammar
     alpha = [" ", "#", "a", "-", "%", "/", "é", "\n", "\t", ":"]
@@ -441,16 +458,23 @@ def run(ctx: Ctx) -> Outcome:
     batches: list[tuple[dict, list, list, dict]] = []
     for si, spec in enumerate(specs):
         dst = ctx.scratch / f"lay{si}"
-        if spec.get("corpus"):
-            aird = data_dir() / spec["model"]
-            res = {k: str(data_dir() / v) for k, v in spec["resources"].items()}
-            mdl = capellambse.MelodyModel(aird, resources=res)
-        else:
-            lay = build_layout(spec, dst)
-            mdl = load(lay)
-        big = len(spec["model"]) and "melodymodel" in spec["model"]
-        check_layout(ctx, out, mdl, spec, helpers, core, batches, layout_stats, per_file=ctx.pick(5 if big else 9, 10 if big else 16))
-        del mdl
+        phase = "load"
+        try:
+            if spec.get("corpus"):
+                aird = data_dir() / spec["model"]
+                res = {k: str(data_dir() / v) for k, v in spec["resources"].items()}
+                mdl = capellambse.MelodyModel(aird, resources=res)
+            else:
+                lay = build_layout(spec, dst)
+                mdl = load(lay)
+            phase = "links"
+            big = len(spec["model"]) and "melodymodel" in spec["model"]
+            check_layout(ctx, out, mdl, spec, helpers, core, batches, layout_stats, per_file=ctx.pick(5 if big else 9, 10 if big else 16))
+            del mdl
+        except common.InfraError:
+            raise
+        except Exception as e:  # noqa: BLE001  (whatever the implementation raises is an observation, not a crash)
+            out.find(f"{phase}|raises:{type(e).__name__}", f"{phase} of layout raised {type(e).__name__}: {e}"[:240], {"kind": "layout", "layout": spec})
         if not spec.get("corpus"):
             import shutil
 
@@ -617,14 +641,15 @@ def check_layout(ctx, out, mdl, spec, helpers, core, batches, stats, per_file):
                         stats["links_unresolvable"] += 1
                         continue
                     ti, b = cands[0]
-                    if spec.get("raw_nonascii") and any(ord(c) > 127 for c in path):
-                        # the raw spelling must be *read*; it is not what create_link writes
+                    if path != urllib.parse.quote(urllib.parse.unquote(path), safe="/"):
+                        # a spelling that leaves non-ASCII characters / sub-delims raw must be *read*; it is not
+                        # what create_link writes
                         try:
                             ok = loader.follow_link(e, text) is b
                         except Exception:  # noqa: BLE001
                             ok = False
                         if not ok:
-                            out.find("follow_link|raw-nonascii-path", f"{text!r} does not resolve", {"kind": "written", "layout": spec, "text": text})
+                            out.find("follow_link|raw-spelling-of-path", f"{text!r} does not resolve", {"kind": "written", "layout": spec, "text": text})
                         continue
                     # a containment placeholder (`href` next to xsi:type in a semantic file) is EMF's proxy
                     # form: the type lives in xsi:type, the href is the untyped spelling of the same link
@@ -744,11 +769,11 @@ for frag, tree in l.trees.items():
         present = [a for a in ("id", "uid", XMI) if e.get(a) is not None]
         if len(present) < 2: continue
         n += 1
-        s = l.create_link(tree.root, e)
         try:
+            s = l.create_link(tree.root, e)
             ok = l.follow_link(None, s) is e
         except Exception as ex:
-            ok = False
+            s, ok = locals().get("s", type(ex).__name__), False
         if not ok and len(bad) < 3:
             bad.append({"tag": e.tag, "attrs": {a.replace("{http://www.omg.org/XMI}", "xmi:"): e.get(a) for a in present}, "link": s, "fragment": str(frag).replace("\0", "")})
 print(json.dumps({"n": n, "bad": bad}))
@@ -783,6 +808,13 @@ def idattr_stream(ctx: Ctx, out: Outcome) -> None:
 
 
 def replay(ctx: Ctx, case: dict):
+    try:
+        return _replay(ctx, case)
+    except Exception as e:  # noqa: BLE001
+        return f"the implementation raised {type(e).__name__}: {e}"[:300]
+
+
+def _replay(ctx: Ctx, case: dict):
     capellambse, helpers, core = _imports()
     import logging
 
@@ -796,6 +828,10 @@ def replay(ctx: Ctx, case: dict):
         if list(back.parts) != to or any(ch in q for ch in " #\t\n"):
             return f"path {to} from {frm}: link path {q!r} resolves to {list(back.parts)}"
         return None
+    if kind == "unquote_ref":
+        r = case["ref"]
+        u = core._unquote_ref(r)
+        return f"_unquote_ref({r!r}) = {u!r}" if "%" not in r and not r.startswith("platform:/resource/") and u != r else None
     if kind == "idattr":
         r = idattr_probe(data_dir() / case["model"], case["hashseed"])
         return (f"create_link to multi-id element does not resolve back: {r['bad'][0]}" if r["bad"] else None)
